@@ -1,6 +1,7 @@
 import ParryModel.Field
 import ParryModel.C01.Model
 import ParryModel.C01.Lemmas
+import ParryModel.C01.TheoremsGjk
 /-!
 # C01 property theorems: distance / closest points are the true minimum separation.
 
@@ -690,7 +691,7 @@ theorem satCuboidCuboidEdgeTwoway_lower (hs : LawfulSqrt sq) (he1 he2 : V3 K) (p
   intro b a hb
   split_ifs with hn hlt
   · -- the normalised axis has length one
-    simp only [V3.norm, V3.normSq, V3.dot, fieldNum_sqrt, eps, fieldNum_lit] at hn
+    simp only [V3.norm, V3.normSq, V3.dot, fieldNum_sqrt, Dist.eps, fieldNum_lit] at hn
     have hd0 : 0 ≤ a.x * a.x + a.y * a.y + a.z * a.z := by
       nlinarith [mul_self_nonneg a.x, mul_self_nonneg a.y, mul_self_nonneg a.z]
     have hSS := hs.sq_mul _ hd0
@@ -735,8 +736,8 @@ theorem segSegParamsGen_kkt {V : Type} (sub : V → V → V) (dot : V → V → 
     (hA0 : A = 0 → B = 0 ∧ C = 0) (hE0 : E = 0 → B = 0 ∧ F = 0) :
     letI := fieldNum K sq
     letI := fieldBits K
-    (A ≤ eps → A = 0) → (E ≤ eps → E = 0) →
-    (eps < A → eps < E → (eps < A * E - B * B ∧ ulpsEq (A * E) (B * B) = false) ∨ A * E - B * B = 0) →
+    (A ≤ Dist.eps → A = 0) → (E ≤ Dist.eps → E = 0) →
+    (Dist.eps < A → Dist.eps < E → (Dist.eps < A * E - B * B ∧ ulpsEq (A * E) (B * B) = false) ∨ A * E - B * B = 0) →
     ∀ st, st = segSegParamsGen sub dot a1 b1 a2 b2 →
     0 ≤ st.1 ∧ st.1 ≤ 1 ∧ 0 ≤ st.2 ∧ st.2 ≤ 1 ∧
     ∀ s' t', 0 ≤ s' → s' ≤ 1 → 0 ≤ t' → t' ≤ 1 →
@@ -806,10 +807,10 @@ and the collinearity test (`denom ≤ ε` or `ulps_eq!(ae, bb)`) fires only for 
 def SegExact3 (a1 b1 a2 b2 : V3 K) : Prop :=
   letI := fieldNum K sq
   letI := fieldBits K
-  ((b1.sub a1).dot (b1.sub a1) ≤ eps → (b1.sub a1).dot (b1.sub a1) = 0) ∧
-  ((b2.sub a2).dot (b2.sub a2) ≤ eps → (b2.sub a2).dot (b2.sub a2) = 0) ∧
-  (eps < (b1.sub a1).dot (b1.sub a1) → eps < (b2.sub a2).dot (b2.sub a2) →
-    (eps < (b1.sub a1).dot (b1.sub a1) * (b2.sub a2).dot (b2.sub a2) - (b1.sub a1).dot (b2.sub a2) * (b1.sub a1).dot (b2.sub a2) ∧
+  ((b1.sub a1).dot (b1.sub a1) ≤ Dist.eps → (b1.sub a1).dot (b1.sub a1) = 0) ∧
+  ((b2.sub a2).dot (b2.sub a2) ≤ Dist.eps → (b2.sub a2).dot (b2.sub a2) = 0) ∧
+  (Dist.eps < (b1.sub a1).dot (b1.sub a1) → Dist.eps < (b2.sub a2).dot (b2.sub a2) →
+    (Dist.eps < (b1.sub a1).dot (b1.sub a1) * (b2.sub a2).dot (b2.sub a2) - (b1.sub a1).dot (b2.sub a2) * (b1.sub a1).dot (b2.sub a2) ∧
       ulpsEq ((b1.sub a1).dot (b1.sub a1) * (b2.sub a2).dot (b2.sub a2)) ((b1.sub a1).dot (b2.sub a2) * (b1.sub a1).dot (b2.sub a2)) = false) ∨
     (b1.sub a1).dot (b1.sub a1) * (b2.sub a2).dot (b2.sub a2) - (b1.sub a1).dot (b2.sub a2) * (b1.sub a1).dot (b2.sub a2) = 0)
 
@@ -964,7 +965,7 @@ theorem closestPointsSegmentSegment_spec (pos12 : Iso3 K) (a1 b1 a2 b2 : V3 K) (
 /-- non-vacuity of `SegExact3`: the skew unit segments `[(0,0,0),(1,0,0)]` and `[(0,1,0),(0,1,1)]` over `ℚ` pass all
 three tolerance tests exactly (lengths `1 > ε`, `denom = 1 > ε`, `ulps_eq!(1, 0)` false). -/
 example : SegExact3 (fun x : ℚ => x) ⟨0, 0, 0⟩ ⟨1, 0, 0⟩ ⟨0, 1, 0⟩ ⟨0, 1, 1⟩ := by
-  simp only [SegExact3, V3.sub, V3.dot, eps, fieldNum_lit, ulpsEq]
+  simp only [SegExact3, V3.sub, V3.dot, Dist.eps, fieldNum_lit, ulpsEq]
   norm_num
 
 /-- **`closest_points_line_line_parameters_eps`**: when the function does not flag the lines as parallel and both
@@ -1125,10 +1126,10 @@ theorem distanceBallBall2_lower (hs : LawfulSqrt sq) (r1 r2 : K) (c : V2 K) (hr1
 def SegExact2 (a1 b1 a2 b2 : V2 K) : Prop :=
   letI := fieldNum K sq
   letI := fieldBits K
-  ((b1.sub a1).dot (b1.sub a1) ≤ eps → (b1.sub a1).dot (b1.sub a1) = 0) ∧
-  ((b2.sub a2).dot (b2.sub a2) ≤ eps → (b2.sub a2).dot (b2.sub a2) = 0) ∧
-  (eps < (b1.sub a1).dot (b1.sub a1) → eps < (b2.sub a2).dot (b2.sub a2) →
-    (eps < (b1.sub a1).dot (b1.sub a1) * (b2.sub a2).dot (b2.sub a2) - (b1.sub a1).dot (b2.sub a2) * (b1.sub a1).dot (b2.sub a2) ∧
+  ((b1.sub a1).dot (b1.sub a1) ≤ Dist.eps → (b1.sub a1).dot (b1.sub a1) = 0) ∧
+  ((b2.sub a2).dot (b2.sub a2) ≤ Dist.eps → (b2.sub a2).dot (b2.sub a2) = 0) ∧
+  (Dist.eps < (b1.sub a1).dot (b1.sub a1) → Dist.eps < (b2.sub a2).dot (b2.sub a2) →
+    (Dist.eps < (b1.sub a1).dot (b1.sub a1) * (b2.sub a2).dot (b2.sub a2) - (b1.sub a1).dot (b2.sub a2) * (b1.sub a1).dot (b2.sub a2) ∧
       ulpsEq ((b1.sub a1).dot (b1.sub a1) * (b2.sub a2).dot (b2.sub a2)) ((b1.sub a1).dot (b2.sub a2) * (b1.sub a1).dot (b2.sub a2)) = false) ∨
     (b1.sub a1).dot (b1.sub a1) * (b2.sub a2).dot (b2.sub a2) - (b1.sub a1).dot (b2.sub a2) * (b1.sub a1).dot (b2.sub a2) = 0)
 
